@@ -80,55 +80,63 @@ Check never_unasked :
   count_id id (received c (trace init h)) = 0%nat /\ count_id id (pending c (exec init h)) = 0%nat.
 Print Assumptions never_unasked.
 
-(** An ask is answered at once if a publication for the id is stored and unexpired (clock < its own expiry): exactly one copy of exactly the stored bytes goes to the asking connection, nothing to anybody else. *)
-Theorem ask_answered_immediately :
-  forall h c a t e m,
-  length a = HDR_SIZE ->
-  lookup (hdr_id a) (msgs (exec init h)) = Some (Ready e m) -> t < e ->
-  let s := exec init h in
-  let s' := fst (step s (OSend c a t)) in
-  snd (step s (OSend c a t)) = [ObsSend true] /\
-  pending c s' = m :: pending c s /\
-  (forall c', c' <> c -> pending c' s' = pending c' s) /\
-  lookup (hdr_id a) (msgs s') = Some (Ready e m).
-Proof. exact ask_answered_immediately_proof. Qed.
-Check ask_answered_immediately :
-  forall h c a t e m,
-  length a = HDR_SIZE ->
-  lookup (hdr_id a) (msgs (exec init h)) = Some (Ready e m) -> t < e ->
-  let s := exec init h in
-  let s' := fst (step s (OSend c a t)) in
-  snd (step s (OSend c a t)) = [ObsSend true] /\
-  pending c s' = m :: pending c s /\
-  (forall c', c' <> c -> pending c' s' = pending c' s) /\
-  lookup (hdr_id a) (msgs s') = Some (Ready e m).
-Print Assumptions ask_answered_immediately.
+(** ... in particular after every prefix (first i operations) of any history: the k-th delivery of an id to a connection happens no earlier than that connection's k-th ask for it -- the injection from deliveries to earlier asks. *)
+Theorem ask_at_most_once_prefix :
+  forall h i c id,
+  (count_id id (received c (trace init (firstn i h))) + count_id id (pending c (exec init (firstn i h)))
+   <= asks_of c id (firstn i h))%nat.
+Proof. exact ask_at_most_once_prefix_proof. Qed.
+Check ask_at_most_once_prefix :
+  forall h i c id,
+  (count_id id (received c (trace init (firstn i h))) + count_id id (pending c (exec init (firstn i h)))
+   <= asks_of c id (firstn i h))%nat.
+Print Assumptions ask_at_most_once_prefix.
 
-(** An ask at clock t with TTL ttl that finds no live publication is answered by the first publication under its id at a clock tp < t + ttl (whatever else happens in between, before the ask's expiry): the connection gets n >= 1 copies (one per registration of that connection; exactly one per ask by ask_at_most_once) of exactly the published frame, which is stored with its own expiry. *)
-Theorem ask_answered_when_published :
-  forall h1 c a t h2 o f tp,
-  length a = HDR_SIZE ->
-  (forall e m, lookup (hdr_id a) (msgs (exec init h1)) = Some (Ready e m) -> e <= t) ->
-  times_before (t + hdr_ttl a) h2 ->
-  (forall o', In o' h2 -> ~ publishes (hdr_id a) o') ->
-  is_publish o f tp -> hdr_id f = hdr_id a -> tp < t + hdr_ttl a ->
-  let s := exec init (h1 ++ OSend c a t :: h2) in
-  let s' := fst (step s o) in
-  exists n, (1 <= n)%nat /\ pending c s' = pending c s ++ repeat f n /\
-            lookup (hdr_id a) (msgs s') = Some (Ready (tp + hdr_ttl f) f).
-Proof. exact ask_answered_when_published_proof. Qed.
-Check ask_answered_when_published :
-  forall h1 c a t h2 o f tp,
-  length a = HDR_SIZE ->
-  (forall e m, lookup (hdr_id a) (msgs (exec init h1)) = Some (Ready e m) -> e <= t) ->
-  times_before (t + hdr_ttl a) h2 ->
-  (forall o', In o' h2 -> ~ publishes (hdr_id a) o') ->
-  is_publish o f tp -> hdr_id f = hdr_id a -> tp < t + hdr_ttl a ->
-  let s := exec init (h1 ++ OSend c a t :: h2) in
-  let s' := fst (step s o) in
-  exists n, (1 <= n)%nat /\ pending c s' = pending c s ++ repeat f n /\
-            lookup (hdr_id a) (msgs s') = Some (Ready (tp + hdr_ttl f) f).
-Print Assumptions ask_answered_when_published.
+(** An ask is answered if the message is live. (1) At once, if a publication for the id is stored and unexpired (clock t < its own expiry e): exactly one copy of exactly the stored bytes goes to the asking connection, nothing to anybody else. (2) Otherwise at the first publication under its id at a clock tp < t + ttl, whatever else happens in between before the ask's expiry: the connection gets n >= 1 copies (one per registration of that connection; exactly one per ask by ask_at_most_once) of exactly the published frame, which is stored with its own expiry. *)
+Theorem ask_answered_if_live :
+  (forall h c a t e m,
+     length a = HDR_SIZE ->
+     lookup (hdr_id a) (msgs (exec init h)) = Some (Ready e m) -> t < e ->
+     let s := exec init h in
+     let s' := fst (step s (OSend c a t)) in
+     snd (step s (OSend c a t)) = [ObsSend true] /\
+     pending c s' = m :: pending c s /\
+     (forall c', c' <> c -> pending c' s' = pending c' s) /\
+     lookup (hdr_id a) (msgs s') = Some (Ready e m))
+  /\
+  (forall h1 c a t h2 o f tp,
+     length a = HDR_SIZE ->
+     (forall e m, lookup (hdr_id a) (msgs (exec init h1)) = Some (Ready e m) -> e <= t) ->
+     times_before (t + hdr_ttl a) h2 ->
+     (forall o', In o' h2 -> ~ publishes (hdr_id a) o') ->
+     is_publish o f tp -> hdr_id f = hdr_id a -> tp < t + hdr_ttl a ->
+     let s := exec init (h1 ++ OSend c a t :: h2) in
+     let s' := fst (step s o) in
+     exists n, (1 <= n)%nat /\ pending c s' = pending c s ++ repeat f n /\
+               lookup (hdr_id a) (msgs s') = Some (Ready (tp + hdr_ttl f) f)).
+Proof. exact ask_answered_if_live_proof. Qed.
+Check ask_answered_if_live :
+  (forall h c a t e m,
+     length a = HDR_SIZE ->
+     lookup (hdr_id a) (msgs (exec init h)) = Some (Ready e m) -> t < e ->
+     let s := exec init h in
+     let s' := fst (step s (OSend c a t)) in
+     snd (step s (OSend c a t)) = [ObsSend true] /\
+     pending c s' = m :: pending c s /\
+     (forall c', c' <> c -> pending c' s' = pending c' s) /\
+     lookup (hdr_id a) (msgs s') = Some (Ready e m))
+  /\
+  (forall h1 c a t h2 o f tp,
+     length a = HDR_SIZE ->
+     (forall e m, lookup (hdr_id a) (msgs (exec init h1)) = Some (Ready e m) -> e <= t) ->
+     times_before (t + hdr_ttl a) h2 ->
+     (forall o', In o' h2 -> ~ publishes (hdr_id a) o') ->
+     is_publish o f tp -> hdr_id f = hdr_id a -> tp < t + hdr_ttl a ->
+     let s := exec init (h1 ++ OSend c a t :: h2) in
+     let s' := fst (step s o) in
+     exists n, (1 <= n)%nat /\ pending c s' = pending c s ++ repeat f n /\
+               lookup (hdr_id a) (msgs s') = Some (Ready (tp + hdr_ttl f) f)).
+Print Assumptions ask_answered_if_live.
 
 (** A publication that finds no live message under its id (vacant, waiters, or an expired one) is the one that is stored, with its own expiry t + ttl. *)
 Theorem first_publication_stored :
